@@ -11,6 +11,7 @@ export GOFLAGS=-mod=mod GOPROXY=off GOSUMDB=off GOTOOLCHAIN=local
 seeds=("$@")
 if [ ${#seeds[@]} = 0 ]; then seeds=($(ls seeded | grep -v '\.md$')); fi
 wt=/tmp/seedwt_$$
+base=${SEED_BASE:-$(git -C /repo rev-parse HEAD)}   # one repository commit for the whole run (commits made meanwhile do not mix in)
 mkdir -p out/seeded
 for name in "${seeds[@]}"; do
   d=seeded/$name
@@ -20,7 +21,7 @@ for name in "${seeds[@]}"; do
     echo "$name $prop no-check"; continue
   fi
   git -C /repo worktree remove --force $wt 2>/dev/null
-  git -C /repo worktree add -q --detach $wt HEAD || { echo "$name worktree-failed"; continue; }
+  git -C /repo worktree add -q --detach $wt $base || { echo "$name worktree-failed"; continue; }
   if ! git -C $wt apply $PWD/$d/patch.diff 2>/dev/null; then
     if ! git -C $wt apply -3 $PWD/$d/patch.diff 2>/dev/null; then
       echo "$name $prop stale"; git -C /repo worktree remove --force $wt; continue
